@@ -8,6 +8,9 @@
                            leader rotation (N rounds) after r0, the highest round any running member was in at the
                            last fault (crash, silent member, late start). *)
 EXTENDS QBFTTrace
+CONSTANT DevEagerTieDesync   \* FALSE: the property as stated.  TRUE (deviation cfg, known finding C04-eager-timer-tie-desync):
+                             \* one further leader rotation is tolerated for the dedicated zero-latency tie probe
+                             \* (a replayed behaviour of QBFTTimed with the eager double-linear timer)
 VARIABLES now, r0, ended
 ttvars == <<vars, tr, l, now, r0, ended>>
 Running(s) == {p \in Honest : s[p].started /\ s[p].running}
@@ -25,7 +28,9 @@ TTSilent == /\ IsEvent("Silent") /\ Crash(Ev.p) /\ Timed /\ UNCHANGED r0
 TTEnd == /\ IsEvent("End") /\ UNCHANGED vars /\ ended' = TRUE /\ UNCHANGED <<now, r0>>
 TTNext == TTReset \/ TTStart \/ TTInput \/ TTTimeout \/ TTDeliver \/ TTCrash \/ TTSilent \/ TTEnd
 TTSpec == TTInit /\ [][TTNext]_ttvars
-BoundedDecision == ended => \A p \in Running(st) : st[p].decided /\ st[p].dround <= r0 + N
+IsTieProbe == Has(Trace[1], "script") /\ Trace[1].timer = "eager"
+Slack == IF DevEagerTieDesync /\ IsTieProbe THEN N ELSE 0
+BoundedDecision == ended => \A p \in Running(st) : st[p].decided /\ st[p].dround <= r0 + N + Slack
 AllStartedAtEnd == ended => \A p \in Honest : st[p].running => st[p].started
 TMark == /\ CheckInv("BoundedDecision", BoundedDecision) /\ CheckInv("AllStartedAtEnd", AllStartedAtEnd)
          /\ Mark
